@@ -14,6 +14,10 @@ CHECKS = {
          "Exploration: ~100k generated grammars per configuration (rules shaped like each pass's pattern), each pass applied alone through the cfg hook, before/after compared on every string of length <= 3 (<= 4 thorough) over the grammar's alphabet for every start rule: outcome, end, tokens, final stack. Bounded-exhaustive per grammar, sampled over grammars.",
          "Trusts refsem.rs on both sides of each comparison (C01 ties it to the VM). Node tags are not compared (placement undocumented). Open finding D7 (lister) is recognised by an exact signature: the pass output equals the documented (x~y)*~x rewrite.",
          "DESIGN.md section 4, C05"),
+ "C06": ("generated-grammar search with an exact divergence oracle (recurrence of a finite configuration in the reference evaluator), demonstrated on the real VM in a child process; by-construction well-formed grammars for the completeness direction",
+         "Exploration: ~800k unrepaired stack-free grammars (quick), of which ~27% are accepted; each accepted grammar is run on every string of length <= 3 over its alphabet from every rule, and the evaluator must never prove divergence; 200k by-construction well-formed grammars must be accepted. Sampled over grammars, exhaustive over short inputs.",
+         "Trusts refsem.rs's 1:1 lowering of optimized rules and its recurrence detection (exact for stack-free grammars). Open finding D15 (recursion through the implicit WHITESPACE/COMMENT call) is recognised by the model's cycle containing an implicit-skip entry; any other escape is still a violation.",
+         "DESIGN.md section 4, C06"),
  "C10": ("exhaustive small-scope enumeration of strings x offsets x offset pairs + proptest strings, against direct definitions of line/column/line containment",
          "Exploration: all strings of <= 6 symbols (quick) / 8 (thorough) over {a, LF, CR, TAB, e-acute, emoji} with every offset and offset pair, plus random long strings; Position/Span/Pair/Error line-column results and the rendered error text are compared with the definitions. Bounded-exhaustive plus sampled.",
          "Marker alignment is not asserted when a lone CR precedes the offset on its line; empty-span lines() may be empty or the containing line; see DESIGN.md C10.",
